@@ -45,7 +45,7 @@ struct SizeFilter;
 impl Filter for SizeFilter {
     fn evaluate(&self, input: &dyn ValueView, _runtime: &dyn Runtime) -> Result<Value> {
         if let Some(x) = input.as_scalar() {
-            Ok(Value::scalar(x.to_kstr().len() as i64))
+            Ok(Value::scalar(x.to_kstr().chars().count() as i64))
         } else if let Some(x) = input.as_array() {
             Ok(Value::scalar(x.size()))
         } else if let Some(x) = input.as_object() {
